@@ -399,6 +399,16 @@ pub fn sim_dir_spec(case: &Case, dir: &str, paths: &[String], datas: &[Vec<u8>],
     spec
 }
 
+/// Like `sim_files_spec`, but the command line names `args` (directories that hold some of
+/// the files, say) instead of the files themselves.
+pub fn sim_args_spec(case: &Case, args: &[String], paths: &[String], datas: &[Vec<u8>], plans: &[FilePlan]) -> RunSpec {
+    let mut spec = sim_files_spec(case, paths, datas, plans);
+    let keep = spec.argv.len() - paths.len();
+    spec.argv.truncate(keep);
+    spec.argv.extend(args.iter().cloned());
+    spec
+}
+
 impl Ctx {
     /// A fresh, empty directory in this worker's private directory.
     pub fn fresh_dir(&mut self) -> Option<String> {
